@@ -414,3 +414,323 @@ Qed.
 
 Lemma reach_FB c steps h0 t0 l0 : FB (run c (init h0 t0 l0) steps).
 Proof. apply run_inv; [intros; apply FB_apply; assumption|]. intros id x Hg. simpl in Hg. discriminate. Qed.
+
+(** ** a step that is neither an end-block nor a successful control step on [id] keeps the
+    schedule data of context [id] *)
+Definition keepf (x x' : context) : Prop :=
+  x_batch x' = x_batch x /\ x_state x' = x_state x /\ x_rep x' = x_rep x /\ x_timeout x' = x_timeout x
+  /\ x_freq x' = x_freq x /\ x_total x' = x_total x.
+Lemma keepf_refl x : keepf x x.
+Proof. repeat split. Qed.
+
+Definition LF (id : ctxid) (s s' : state) : Prop :=
+  (forall x, get id (ctxs s) = Some x ->
+     exists x', get id (ctxs s') = Some x' /\ keepf x x'
+                /\ get id (expmark s') = get id (expmark s) /\ get id (newmark s') = get id (newmark s))
+  /\ (get id (ctxs s) = None -> forall x', get id (ctxs s') = Some x' -> x_batch x' = 0).
+
+Lemma LF_loc id s s' : loc id s' = loc id s -> LF id s s'.
+Proof.
+  unfold loc. intros E. inversion E as [[E1 E2 E3]]. split.
+  - intros x Hg. exists x. rewrite E1, E2, E3. split; [exact Hg|]. split; [apply keepf_refl|split; reflexivity].
+  - intros Hn x' Hg. rewrite E1 in Hg. congruence.
+Qed.
+Lemma LF_refl id s : LF id s s.
+Proof. apply LF_loc. reflexivity. Qed.
+
+Ltac lf_same H := repeat dmn H; inversion H; subst; clear H; apply LF_loc; reflexivity.
+
+Lemma LF_create c s txh svc provs cons inok capd capa timeout rep freq total st thr md s' id1 id :
+  create_context c s txh svc provs cons inok capd capa timeout rep freq total st thr md = Some (s', id1) ->
+  get (txh, iidx s) (ctxs s) = None -> LF id s s'.
+Proof.
+  intros H Hf. destruct (eq_dec id (txh, iidx s)) as [->|Hne].
+  - split; [intros x Hg; pose proof (eq_trans (eq_sym Hg) Hf) as Hc; discriminate Hc|]. intros _ x' Hg. unfold create_context in H.
+    repeat dmn H; inversion H; subst; clear H; simpl in Hg; rewrite get_set_same in Hg; inversion Hg; subst; reflexivity.
+  - apply LF_loc. unfold create_context in H. repeat dmn H; inversion H; subst; clear H; unfold loc; simpl;
+      rewrite ?get_set_other by exact Hne; reflexivity.
+Qed.
+
+Lemma LF_respond c s rid prov kind s' id : respond c s rid prov kind = Okk s' -> LF id s s'.
+Proof.
+  intros H. unfold respond in H. destruct rid as [[[id1 batch] hh] ii].
+  destruct ((0 <=? prov) && negb (kind =? 2)); cbv beta iota zeta delta [negb] in H; [|discriminate].
+  match type of H with context [@get reqid request ?i ?k (reqs s)] =>
+    destruct (@get reqid request i k (reqs s)) as [q|] eqn:Eq end; [|discriminate].
+  destruct (get id1 (ctxs s)) as [x|] eqn:Ex; [|discriminate].
+  destruct (q_prov q =? prov) eqn:Ep; cbv beta iota zeta delta [negb] in H; [|discriminate].
+  destruct (q_active q); cbv beta iota zeta delta [negb] in H; [|discriminate].
+  destruct (add_earned_fee c s prov (q_fd q) (q_fee q)) as [s1|] eqn:Ef; [|discriminate].
+  assert (F : newmark s1 = newmark s /\ ctxs s1 = ctxs s /\ expmark s1 = expmark s).
+  { unfold add_earned_fee in Ef. destruct (send _ _ _ _ _); [|discriminate].
+    destruct (q_fee q <? _); [discriminate|]. inversion Ef; subst. repeat split; reflexivity. }
+  destruct F as (F3 & F5 & F4).
+  destruct (eq_dec id id1) as [->|Hne].
+  - split; [|intros Hn; congruence]. intros x0 Hg. rewrite Ex in Hg. inversion Hg; subst x0.
+    destruct (x_bresp (cx_bresp x (x_bresp x + 1)) =? x_breq (cx_bresp x (x_bresp x + 1)));
+      [destruct (x_mod (cx_bresp x (x_bresp x + 1)))|]; inversion H; subst s'; clear H; simpl;
+      try (unfold callback; simpl; rewrite F5, Ex; simpl); rewrite ?F3, ?F4, get_set_same; eexists; (split; [reflexivity|]);
+      repeat split; reflexivity.
+  - apply LF_loc. unfold loc.
+    destruct (x_bresp (cx_bresp x (x_bresp x + 1)) =? x_breq (cx_bresp x (x_bresp x + 1)));
+      [destruct (x_mod (cx_bresp x (x_bresp x + 1)))|]; inversion H; subst s'; clear H; simpl;
+      try (unfold callback; simpl; rewrite F5, Ex; simpl); rewrite ?F3, ?F4, ?F5; rewrite get_set_other by exact Hne; reflexivity.
+Qed.
+
+Lemma LF_pause s id0 cons s' id : k_pause s id0 cons = Okk s' -> id <> id0 -> LF id s s'.
+Proof. intros H Hne. apply LF_loc. unfold k_pause in H. repeat dmn H; inversion H; subst; unfold loc; simpl; rewrite get_set_other by exact Hne; reflexivity. Qed.
+Lemma LF_kill s id0 cons s' id : k_kill s id0 cons = Okk s' -> id <> id0 -> LF id s s'.
+Proof. intros H Hne. apply LF_loc. unfold k_kill in H. repeat dmn H; inversion H; subst; unfold loc; simpl; rewrite get_set_other by exact Hne; reflexivity. Qed.
+Lemma LF_start s id0 cons s' id : k_start s id0 cons = Okk s' -> id <> id0 -> LF id s s'.
+Proof.
+  intros H Hne. apply LF_loc. unfold k_start in H. repeat dmn H; inversion H; subst; unfold loc; simpl;
+    rewrite ?get_set_other by exact Hne; reflexivity.
+Qed.
+Lemma LF_update_context c s id0 provs capd capa timeout freq total cons s' id :
+  update_context c s id0 provs capd capa timeout freq total cons = Okk s' -> id <> id0 -> LF id s s'.
+Proof.
+  intros H Hne. apply LF_loc. unfold update_context in H. destruct (negb _); [discriminate|]. destruct (negb (check_authority s cons id0 true)); [discriminate|].
+  destruct (get id0 (ctxs s)) as [x|]; [|discriminate].
+  repeat match type of H with (if ?g then Rejj else _) = _ => destruct g; [discriminate|] end. cbv zeta in H.
+  repeat match type of H with (if ?g then Rejj else _) = _ => destruct g; [discriminate|] end.
+  inversion H; subst. unfold loc. simpl. rewrite get_set_other by exact Hne. reflexivity.
+Qed.
+
+Lemma create_loc_other c s txh svc provs cons inok capd capa timeout rep freq total st thr md s' id1 id :
+  create_context c s txh svc provs cons inok capd capa timeout rep freq total st thr md = Some (s', id1) ->
+  id <> (txh, iidx s) -> loc id s' = loc id s.
+Proof.
+  intros H Hne. unfold create_context in H. repeat dmn H; inversion H; subst; clear H; unfold loc; simpl;
+    rewrite ?get_set_other by exact Hne; reflexivity.
+Qed.
+
+Lemma LF_call_module c s txh svc provs cons inok capd capa timeout rep freq total s' id :
+  call_module c s txh svc provs cons inok capd capa timeout rep freq total = Okk s' ->
+  get (txh, iidx s) (ctxs s) = None -> LF id s s'.
+Proof.
+  intros H Hf.
+  destruct (call_module_shape _ _ _ _ _ _ _ _ _ _ _ _ _ _ H) as (s1 & id1 & x & q' & E1 & Hid & Ex & _ & Xb & _ & _ & C & _ & _ & _ & _ & Nm & _ & Em & _).
+  subst id1. destruct (eq_dec id (txh, iidx s)) as [->|Hne].
+  - split; [intros x0 Hg; pose proof (eq_trans (eq_sym Hg) Hf) as Hc; discriminate Hc|].
+    intros _ x' Hg. rewrite C, get_set_same in Hg. inversion Hg; subst. simpl. exact Xb.
+  - apply LF_loc. rewrite <- (create_loc_other _ _ _ _ _ _ _ _ _ _ _ _ _ _ _ _ _ _ id E1 Hne). unfold loc.
+    rewrite C, Nm, Em, get_set_other by exact Hne. reflexivity.
+Qed.
+
+Lemma step_frame c s st id :
+  fresh_ctx s st -> is_endblock st = false ->
+  (forall cn u, ctl_target st = Some (id, cn, u) -> res_code (exec_step c s st) <> 0) ->
+  LF id s (apply c s st).
+Proof.
+  intros Hf Heb Hctl. unfold apply. destruct (exec_step c s st) as [s'| |] eqn:E; try apply LF_refl.
+  assert (Hno : forall cn u, ctl_target st = Some (id, cn, u) -> False) by (intros cn u Ec; exact (Hctl cn u Ec eq_refl)).
+  clear Hctl. destruct st as [txh m|dt| | |txh svc ps cn ca tmo rp fq tl st0 thr|id0 cn|id0 cn|id0 cn| ]; cbn [exec_step] in E; try discriminate Heb.
+  - destruct m; cbn [exec_msg exec_msg_plain] in E.
+    + unfold define in E. lf_same E.
+    + destruct (module_served c svc); [discriminate|]. unfold bind in E. lf_same E.
+    + unfold update_binding in E. lf_same E.
+    + unfold set_withdraw in E. lf_same E.
+    + unfold enable in E. lf_same E.
+    + unfold disable in E. lf_same E.
+    + unfold refund_deposit in E. lf_same E.
+    + simpl in Hf. destruct (module_served c svc); [eapply LF_call_module; eassumption|].
+      unfold call in E. destruct (negb _); [discriminate|].
+      destruct (create_context _ _ _ _ _ _ _ _ _ _ _ _ _ _ _ _) as [[s1 id1]|] eqn:E1; [|discriminate].
+      inversion E; subst. eapply LF_create; eassumption.
+    + eapply LF_respond; eassumption.
+    + unfold msg_ctl in E. repeat (destruct (negb _); [discriminate|]). eapply LF_pause; [exact E|]. intros ->. exact (Hno _ _ eq_refl).
+    + unfold msg_ctl in E. repeat (destruct (negb _); [discriminate|]). eapply LF_start; [exact E|]. intros ->. exact (Hno _ _ eq_refl).
+    + unfold msg_ctl in E. repeat (destruct (negb _); [discriminate|]). eapply LF_kill; [exact E|]. intros ->. exact (Hno _ _ eq_refl).
+    + eapply LF_update_context; [exact E|]. intros ->. exact (Hno _ _ eq_refl).
+    + unfold withdraw in E. lf_same E.
+  - inversion E; subst. apply LF_loc. reflexivity.
+  - lf_same E.
+  - simpl in Hf. destruct (create_context _ _ _ _ _ _ _ _ _ _ _ _ _ _ _ _) as [[s1 id1]|] eqn:E1; [|discriminate].
+    inversion E; subst. eapply LF_create; eassumption.
+  - eapply LF_pause; [exact E|]. intros ->. exact (Hno _ _ eq_refl).
+  - eapply LF_start; [exact E|]. intros ->. exact (Hno _ _ eq_refl).
+  - eapply LF_kill; [exact E|]. intros ->. exact (Hno _ _ eq_refl).
+  - unfold bind in E. lf_same E.
+Qed.
+
+(** ** the checker's tracker and schedule, read off after a step *)
+Lemma fold_upd_get {K A V} `{EqDec K} (g : K * A -> amap K V -> amap K V) :
+  (forall e t k, k <> fst e -> get k (g e t) = get k t) ->
+  (forall e t t', get (fst e) t = get (fst e) t' -> get (fst e) (g e t) = get (fst e) (g e t')) ->
+  forall l t0, NoDup (map fst l) ->
+    (forall e, In e l -> get (fst e) (fold_left (fun t e => g e t) l t0) = get (fst e) (g e t0))
+    /\ (forall k, ~ In k (map fst l) -> get k (fold_left (fun t e => g e t) l t0) = get k t0).
+Proof.
+  intros Hoth Hloc. induction l as [|a l IH]; cbn [fold_left map]; intros t0 Hnd; [split; [intros e []|reflexivity]|].
+  inversion Hnd as [|? ? Hn Hnd']; subst. destruct (IH (g a t0) Hnd') as (I1 & I2). split.
+  - intros e [->|Hin].
+    + rewrite (I2 (fst e) Hn). reflexivity.
+    + rewrite (I1 e Hin). apply Hloc. apply Hoth. intros E. apply Hn. rewrite <- E. apply in_map. exact Hin.
+  - intros k Hk. simpl in Hk. rewrite I2 by tauto. apply Hoth. intros ->. apply Hk. left. reflexivity.
+Qed.
+
+Definition track_g (p : obs) (h : Z) (e : ctxid * ctx_t) (t : track) : track :=
+  let '(id, x) := e in
+  let pb := match get id (o_ctxs p) with Some x0 => t_batch x0 | None => 0 end in
+  if pb <? t_batch x then set id (t_batch x, h, true) t
+  else if negb (t_state x =? 0) then
+    match get id t with Some (n, h0, _) => set id (n, h0, false) t | None => t end
+  else t.
+
+Lemma update_track_end tr p dt o :
+  update_track tr p (EndBlock dt) o = fold_left (fun t e => track_g p (o_height p) e t) (o_ctxs o) tr.
+Proof. unfold update_track. cbn [ctl_target is_endblock]. apply fold_left_ext_eq || reflexivity. Qed.
+
+Lemma track_g_other p h e t k : k <> fst e -> get k (track_g p h e t) = get k t.
+Proof.
+  destruct e as [id x]. cbn [fst]. intros Hne. unfold track_g.
+  destruct (_ <? t_batch x); [apply get_set_other; exact Hne|]. destruct (negb _); [|reflexivity].
+  destruct (get id t) as [[[n h0] b]|]; [apply get_set_other; exact Hne|reflexivity].
+Qed.
+Lemma track_g_loc p h e t t' : get (fst e) t = get (fst e) t' -> get (fst e) (track_g p h e t) = get (fst e) (track_g p h e t').
+Proof.
+  destruct e as [id x]. cbn [fst]. intros E. unfold track_g.
+  destruct (_ <? t_batch x); [rewrite !get_set_same; reflexivity|]. destruct (negb _); [|exact E].
+  rewrite <- E. destruct (get id t) as [[[n h0] b]|] eqn:Eg; [rewrite !get_set_same; reflexivity|]. rewrite <- E. exact Eg.
+Qed.
+
+Lemma track_end_get univ c s dt tr id pc pn pb :
+  NoDup (keys (ctxs (apply c s (EndBlock dt)))) ->
+  get id (update_track tr (obs_of univ pc pn pb s) (EndBlock dt) (obs_step univ c s (EndBlock dt))) =
+  match get id (ctxs (apply c s (EndBlock dt))) with
+  | Some x' => get id (track_g (obs_of univ pc pn pb s) (height s) (id, ctx_tuple x') tr)
+  | None => get id tr
+  end.
+Proof.
+  intros Hnd. rewrite update_track_end. set (p := obs_of univ pc pn pb s). change (o_height p) with (height s).
+  unfold obs_step. cbn [obs_of o_ctxs].
+  set (s' := apply c s (EndBlock dt)) in *.
+  assert (Hnd' : NoDup (map fst (map (fun e : ctxid * context => (fst e, ctx_tuple (snd e))) (ctxs s')))) by (rewrite map_map; exact Hnd).
+  destruct (fold_upd_get (track_g p (height s)) (track_g_other p (height s)) (track_g_loc p (height s)) _ tr Hnd') as (F1 & F2).
+  destruct (get id (ctxs s')) as [x'|] eqn:Eg.
+  - apply (F1 (id, ctx_tuple x')). apply in_map_iff. exists (id, x'). split; [reflexivity|apply get_In; exact Eg].
+  - apply F2. rewrite map_map. intros Hin. apply in_map_iff in Hin. destruct Hin as ([k v] & Ek & Hin). cbn [fst] in Ek. subst k.
+    rewrite (In_get_NoDup id v (ctxs s') Hnd Hin) in Eg. discriminate.
+Qed.
+
+Lemma track_nonend_get tr p st o id n h0 :
+  is_endblock st = false -> get id (update_track tr p st o) = Some (n, h0, true) ->
+  get id tr = Some (n, h0, true) /\ (forall cn u, ctl_target st = Some (id, cn, u) -> o_code o <> 0).
+Proof.
+  intros Heb H. unfold update_track in H. rewrite Heb in H.
+  destruct (ctl_target st) as [[[id0 cn0] u0]|]; [|split; [exact H|intros; discriminate]].
+  destruct (o_code o =? 0) eqn:Ec; [|split; [exact H|]; intros cn u E; inversion E; subst; apply Z.eqb_neq; exact Ec].
+  destruct (eq_dec id id0) as [->|Hne].
+  - destruct (get id0 tr) as [[[n1 h1] b1]|] eqn:Eg.
+    + rewrite get_set_same in H. discriminate.
+    + rewrite Eg in H. discriminate.
+  - assert (Hg : get id tr = Some (n, h0, true)).
+    { destruct (get id0 tr) as [[[n1 h1] b1]|]; [rewrite get_set_other in H by exact Hne|]; exact H. }
+    split; [exact Hg|]. intros cn u E. inversion E; subst. congruence.
+Qed.
+
+(** ** the tracker invariant: an entry (n, h0, true) of the checker's tracker means "batch n of this
+    context started at height h0 and the context has been running, untouched, since" *)
+Definition TIe (s : state) (id : ctxid) (n h0 : Z) : Prop :=
+  1 <= n /\ forall x, get id (ctxs s) = Some x -> x_batch x = n ->
+    x_state x = 0
+    /\ (x_rep x = true ->
+        get id (expmark s) = Some (h0 + x_timeout x)
+        \/ (get id (expmark s) = None /\ get id (newmark s) = Some (h0 + x_freq x))).
+Definition TI (s : state) (tr : track) : Prop := forall id n h0, get id tr = Some (n, h0, true) -> TIe s id n h0.
+
+Lemma TI_nonend univ c s st tr pc pn pb :
+  fresh_ctx s st -> is_endblock st = false -> TI s tr ->
+  TI (apply c s st) (update_track tr (obs_of univ pc pn pb s) st (obs_step univ c s st)).
+Proof.
+  intros Hf Heb Ht id n h0 Hg. destruct (track_nonend_get _ _ _ _ _ _ _ Heb Hg) as (Hg0 & Hctl).
+  unfold obs_step in Hctl. cbn [obs_of o_code] in Hctl.
+  destruct (step_frame c s st id Hf Heb Hctl) as (L1 & L2). destruct (Ht id n h0 Hg0) as (Hn & Hx).
+  split; [exact Hn|]. intros x' Hg' Hb'. destruct (get id (ctxs s)) as [x|] eqn:Ex.
+  - destruct (L1 x eq_refl) as (x'' & Hg'' & (Kb & Ks & Kr & Kt & Kf & _) & Em & Nm). rewrite Hg' in Hg''. inversion Hg''; subst x''.
+    destruct (Hx x eq_refl) as (Hs & Hr); [congruence|]. split; [congruence|]. intros Hr'. rewrite Em, Nm, Kt, Kf. apply Hr. congruence.
+  - specialize (L2 eq_refl x' Hg'). lia.
+Qed.
+
+Lemma end_block_loc' c s dt id :
+  QInv s -> LInv false s ->
+  exists mid,
+    ((get id (expmark s) = Some (height s) /\ QE (height s) (loc id s) mid) \/ (get id (expmark s) <> Some (height s) /\ mid = loc id s))
+    /\ ((snd mid = Some (height s) /\ QN (height s) mid (loc id (end_block c s dt))) \/ (snd mid <> Some (height s) /\ loc id (end_block c s dt) = mid)).
+Proof.
+  intros Hq Hl. destruct (end_block_loc c s dt id Hq Hl) as (mid & P1 & P2). exists mid. split.
+  - unfold loc at 1 in P1. cbn [fst snd] in P1. destruct (eqb (get id (expmark s)) (Some (height s))) eqn:E.
+    + left. split; [apply (proj1 (eqb_true_iff _ _)); exact E|exact P1].
+    + right. split; [apply (proj1 (eqb_false_iff _ _)); exact E|exact P1].
+  - destruct (eqb (snd mid) (Some (height s))) eqn:E.
+    + left. split; [apply (proj1 (eqb_true_iff _ _)); exact E|exact P2].
+    + right. split; [apply (proj1 (eqb_false_iff _ _)); exact E|exact P2].
+Qed.
+
+(** a context with an expiry marker has no new-batch marker *)
+Lemma exp_no_new s id h : QInv s -> get id (expmark s) = Some h -> get id (newmark s) = None.
+Proof.
+  intros Hq He. destruct (get id (newmark s)) as [H|] eqn:En; [|reflexivity]. exfalso.
+  apply (q_exp_nonew _ Hq H id); [apply has_get; eexists; exact He|exact (q_mark_new _ Hq _ _ En)].
+Qed.
+
+(** what one end-block does to a tracked context: repeated, running, batch [n] started at [h0] *)
+Definition eb_out (s : state) (id : ctxid) (x : context) (n h0 : Z) (post : option context * option Z * option Z) : Prop :=
+  let h := height s in let '(cx', ex', nw') := post in
+  (post = loc id s /\ h <> h0 + x_freq x)
+  \/ (cx' = None /\ belowb x = false)
+  \/ (cx' = Some (x_off x) /\ ex' = None /\ nw' = Some (h0 + x_freq x) /\ h <> h0 + x_freq x)
+  \/ (h = h0 + x_freq x /\ exists x', cx' = Some x' /\ x_batch x' = n + 1 /\ x_state x' = 0 /\ x_rep x' = x_rep x
+        /\ x_timeout x' = x_timeout x /\ x_freq x' = x_freq x /\ x_total x' = x_total x
+        /\ ex' = Some (h + x_timeout x) /\ nw' = None)
+  \/ (h = h0 + x_freq x /\ exists x', cx' = Some x' /\ x_batch x' = n /\ x_state x' = 1).
+
+Lemma x_off_fields x : x_batch (x_off x) = x_batch x /\ x_state (x_off x) = x_state x /\ x_rep (x_off x) = x_rep x
+  /\ x_timeout (x_off x) = x_timeout x /\ x_freq (x_off x) = x_freq x /\ x_total (x_off x) = x_total x.
+Proof. unfold x_off. destruct (x_brun x); repeat split. Qed.
+
+Lemma eb_tracked c s dt id x n h0 :
+  QInv s -> LInv false s -> fb_ok x ->
+  get id (ctxs s) = Some x -> x_batch x = n -> TIe s id n h0 -> x_rep x = true ->
+  eb_out s id x n h0 (loc id (end_block c s dt)).
+Proof.
+  intros Hq Hl (_ & Hft) Hg Hb (Hn & Hx) Hr. specialize (Hft Hr). destruct (Hx x Hg Hb) as (Hs & HAB). specialize (HAB Hr).
+  destruct (x_off_fields x) as (Ob & Os & Or & Ot & Of & Otl).
+  destruct (end_block_loc' c s dt id Hq Hl) as (mid & P1 & P2). unfold eb_out.
+  destruct (loc id (end_block c s dt)) as [[cx' ex'] nw'] eqn:El.
+  assert (QNx : forall xm exm, x_state xm = 0 -> QN (height s) (Some xm, exm, Some (height s)) (cx', ex', nw') ->
+            (exists x', cx' = Some x' /\ x_batch x' = x_batch xm + 1 /\ x_state x' = 0 /\ x_rep x' = x_rep xm
+                        /\ x_timeout x' = x_timeout xm /\ x_freq x' = x_freq xm /\ x_total x' = x_total xm
+                        /\ ex' = Some (height s + x_timeout xm) /\ nw' = None)
+            \/ (exists x', cx' = Some x' /\ x_batch x' = x_batch xm /\ x_state x' = 1)).
+  { intros xm exm Hsm Q. unfold QN in Q. destruct Q as (Nw & Q). rewrite Hsm in Q. cbn [Z.eqb] in Q.
+    destruct Q as [(x' & A & B & C & D & E & F & G & H)|(A & _)].
+    - left. exists x'. repeat split; assumption.
+    - right. eexists. split; [exact A|]. split; reflexivity. }
+  destruct HAB as [HA|(HBe & HBn)].
+  - (* the batch is (or was) running: expiry registered at h0 + timeout *)
+    assert (Hle : height s <= h0 + x_timeout x) by exact (proj2 (l_mark _ _ Hl id _ HA)).
+    pose proof (exp_no_new s id _ Hq HA) as Hnn.
+    destruct P1 as [(E1 & Q1)|(E1 & ->)].
+    + assert (Eh : height s = h0 + x_timeout x) by congruence.
+      unfold loc, QE in Q1. rewrite Hg in Q1. destruct mid as [[cxm exm] nwm]. destruct Q1 as (-> & Q1).
+      rewrite Hs in Q1. cbn [Z.eqb] in Q1. destruct (belowb x) eqn:Eb; destruct Q1 as (-> & ->).
+      * assert (Enw : height s - x_timeout x + x_freq x = h0 + x_freq x) by lia. rewrite Enw in P2. cbn [snd] in P2.
+        destruct P2 as [(E2 & Q2)|(E2 & Q2)].
+        -- inversion E2 as [E2']. rewrite E2' in Q2.
+           destruct (QNx (x_off x) None (eq_trans Os Hs) Q2) as [(x' & A & B & C & D & E & F & G & H & I)|(x' & A & B & C)].
+           ++ right. right. right. left. split; [congruence|]. exists x'. rewrite Ob, Or, Ot, Of, Otl in *. repeat split; try assumption; congruence.
+           ++ right. right. right. right. split; [congruence|]. exists x'. rewrite Ob in B. repeat split; try assumption; congruence.
+        -- inversion Q2; subst. right. right. left. repeat split; try reflexivity. intros E. apply E2. congruence.
+      * cbn [snd] in P2. rewrite Hnn in P2. destruct P2 as [(E2 & _)|(_ & Q2)]; [discriminate|]. inversion Q2; subst. right. left. split; reflexivity.
+    + unfold loc at 1 2 in P2. cbn [snd] in P2. rewrite Hnn in P2. destruct P2 as [(E2 & _)|(_ & Q2)]; [discriminate|].
+      left. split; [exact Q2|]. intros E. apply E1. rewrite HA. f_equal. lia.
+  - (* the next batch is scheduled at h0 + frequency *)
+    destruct P1 as [(E1 & _)|(_ & ->)]; [congruence|].
+    unfold loc at 1 2 in P2. cbn [snd] in P2. rewrite HBn in P2. destruct P2 as [(E2 & Q2)|(E2 & Q2)].
+    + inversion E2 as [E2']. rewrite Hg, E2' in Q2.
+      destruct (QNx x (get id (expmark s)) Hs Q2) as [(x' & A & B & C & D & E & F & G & H & I)|(x' & A & B & C)].
+      * right. right. right. left. split; [congruence|]. exists x'. repeat split; try assumption; congruence.
+      * right. right. right. right. split; [congruence|]. exists x'. repeat split; try assumption; congruence.
+    + left. split; [exact Q2|]. intros E. apply E2. unfold loc. cbn [snd]. rewrite HBn. f_equal. lia.
+Qed.
